@@ -19,6 +19,7 @@ func checkC14(r *Report, p *Program) {
 	r14_3(r, p)
 	r14_4(r, p)
 	r12_5(r, p) // R12.5 rule id kept: same obligations
+	keyCompleteness(r, p, "R14.5", "informer.resourceKey")
 }
 
 func handlerLiterals(p *Program) (out []struct {
@@ -204,12 +205,16 @@ func r14_3(r *Report, p *Program) {
 		comp := strings.Contains(pk, "composite")
 		matchNeg := func(pa engine.Path, obj string) bool {
 			if comp {
-				return val(pa, -1, func(a string) bool { return strings.Contains(a, ".doNotMatchLabels)(") && strings.Contains(a, "GetLabels)("+obj) }) == 1
+				return val(pa, -1, func(a string) bool {
+					return strings.Contains(a, ".doNotMatchLabels)(") && strings.Contains(a, "GetLabels)("+obj)
+				}) == 1
 			}
 			return val(pa, -1, func(a string) bool { return strings.Contains(a, "decoratorSelector.Matches)(p0.parentSelector, "+obj) }) == -1
 		}
 		finNeg := func(pa engine.Path, obj string) bool {
-			return val(pa, -1, func(a string) bool { return strings.HasPrefix(a, "call(controllerutil.ContainsFinalizer)("+obj) && strings.HasSuffix(a, "p0.finalizer.Name)") }) == -1
+			return val(pa, -1, func(a string) bool {
+				return strings.HasPrefix(a, "call(controllerutil.ContainsFinalizer)("+obj) && strings.HasSuffix(a, "p0.finalizer.Name)")
+			}) == -1
 		}
 		// enqueueParentObject
 		if f := fn(r, p, rule, pk+".enqueueParentObject"); f != nil {
@@ -219,7 +224,9 @@ func r14_3(r *Report, p *Program) {
 					if matchNeg(pa, obj) && finNeg(pa, obj) {
 						return true, ""
 					}
-					if pa.Has(false, func(a string) bool { return strings.HasSuffix(a, "#1 == nil)") && (strings.Contains(a, "KeyFunc") || strings.Contains(a, "parentQueueKey")) }) {
+					if pa.Has(false, func(a string) bool {
+						return strings.HasSuffix(a, "#1 == nil)") && (strings.Contains(a, "KeyFunc") || strings.Contains(a, "parentQueueKey"))
+					}) {
 						return true, "" // key construction failed (reported via HandleError)
 					}
 					return false, "parent event dropped although it matches or carries the finalizer"
@@ -285,12 +292,16 @@ func r14_3(r *Report, p *Program) {
 				ref := val(pa, -1, func(a string) bool { return a == "(call(metav1.GetControllerOf)("+child+") == nil)" })
 				switch {
 				case ref == -1:
-					if pa.Has(true, func(a string) bool { return strings.Contains(a, ".resolveControllerRef)(") && strings.HasSuffix(a, " == nil)") }) {
+					if pa.Has(true, func(a string) bool {
+						return strings.Contains(a, ".resolveControllerRef)(") && strings.HasSuffix(a, " == nil)")
+					}) {
 						return true, ""
 					}
 					return false, "controlled child dropped although its owner resolves"
 				case ref == 1 && comp:
-					if pa.Has(true, func(a string) bool { return strings.Contains(a, "builtin.len)(call(controller/composite.parentController.findPotentialParents") && strings.HasSuffix(a, " == 0)") }) {
+					if pa.Has(true, func(a string) bool {
+						return strings.Contains(a, "builtin.len)(call(controller/composite.parentController.findPotentialParents") && strings.HasSuffix(a, " == 0)")
+					}) {
 						return true, ""
 					}
 					// zero-length loop over the candidates
@@ -339,9 +350,13 @@ func r14_3(r *Report, p *Program) {
 			dropTable(r, p, rule, f, "delete-table", func(in ssa.Instruction) bool { return isCallTo(in, ".enqueueParentObject") },
 				func(pa engine.Path) (bool, string) {
 					switch {
-					case pa.Has(true, func(a string) bool { return strings.HasPrefix(a, "(call(metav1.GetControllerOf)(") && strings.HasSuffix(a, " == nil)") }):
+					case pa.Has(true, func(a string) bool {
+						return strings.HasPrefix(a, "(call(metav1.GetControllerOf)(") && strings.HasSuffix(a, " == nil)")
+					}):
 						return true, ""
-					case pa.Has(true, func(a string) bool { return strings.Contains(a, ".resolveControllerRef)(") && strings.HasSuffix(a, " == nil)") }):
+					case pa.Has(true, func(a string) bool {
+						return strings.Contains(a, ".resolveControllerRef)(") && strings.HasSuffix(a, " == nil)")
+					}):
 						return true, ""
 					case pa.Has(false, func(a string) bool { return strings.HasSuffix(a, "#1") && strings.HasPrefix(a, "assert<") }):
 						return true, "" // not an object and not a tombstone
@@ -364,12 +379,22 @@ func r14_3(r *Report, p *Program) {
 				if !strings.HasPrefix(got, "call(controller/common.GetObject)(") || !strings.Contains(got, "p2.Name)#0") {
 					ok, why = false, "returns "+got+", not the object looked up by the reference's name"
 				}
-				uid := pa.Has(true, func(a string) bool { return strings.Contains(a, "GetUID)(call(controller/common.GetObject)(") && strings.Contains(a, "p2.UID") && strings.Contains(a, " == ") })
-				found := pa.Has(true, func(a string) bool { return strings.HasPrefix(a, "(call(controller/common.GetObject)(") && strings.HasSuffix(a, "#1 == nil)") })
+				uid := pa.Has(true, func(a string) bool {
+					return strings.Contains(a, "GetUID)(call(controller/common.GetObject)(") && strings.Contains(a, "p2.UID") && strings.Contains(a, " == ")
+				})
+				found := pa.Has(true, func(a string) bool {
+					return strings.HasPrefix(a, "(call(controller/common.GetObject)(") && strings.HasSuffix(a, "#1 == nil)")
+				})
 				kind := pa.Has(true, func(a string) bool { return strings.Contains(a, "p2.Kind") && strings.Contains(a, " == ") }) ||
-					pa.Has(false, func(a string) bool { return strings.Contains(a, "GroupKindMap.Get)(p0.parentKinds") && strings.HasSuffix(a, " == nil)") })
-				group := pa.Has(true, func(a string) bool { return strings.Contains(a, "ParseAPIVersion)(p2.APIVersion)#0") && strings.Contains(a, ".Group") }) ||
-					pa.Has(false, func(a string) bool { return strings.Contains(a, "GroupKindMap.Get)(p0.parentKinds") && strings.HasSuffix(a, " == nil)") })
+					pa.Has(false, func(a string) bool {
+						return strings.Contains(a, "GroupKindMap.Get)(p0.parentKinds") && strings.HasSuffix(a, " == nil)")
+					})
+				group := pa.Has(true, func(a string) bool {
+					return strings.Contains(a, "ParseAPIVersion)(p2.APIVersion)#0") && strings.Contains(a, ".Group")
+				}) ||
+					pa.Has(false, func(a string) bool {
+						return strings.Contains(a, "GroupKindMap.Get)(p0.parentKinds") && strings.HasSuffix(a, " == nil)")
+					})
 				obj := "call(controller/common.GetObject)("
 				rel := !(matchNegPrefix(pa, comp, obj) && finNegPrefix(pa, obj))
 				if !(uid && found && kind && group && rel) {
@@ -396,7 +421,9 @@ func r14_3(r *Report, p *Program) {
 		for _, cs := range lists {
 			in := cs.Instr.(ssa.Instruction)
 			nsd := strings.HasSuffix(cs.Key, "NamespaceLister.List")
-			w := unguarded(f, nil, in, func(l Lit) bool { return l.Pos == nsd && strings.HasSuffix(l.Atom, ".parentResource.APIResource.Namespaced") })
+			w := unguarded(f, nil, in, func(l Lit) bool {
+				return l.Pos == nsd && strings.HasSuffix(l.Atom, ".parentResource.APIResource.Namespaced")
+			})
 			if w != nil {
 				ok, why = false, "List scope does not follow parentResource.Namespaced"
 			}
@@ -407,9 +434,13 @@ func r14_3(r *Report, p *Program) {
 		// keep ⇔ selector ok ∧ non-empty ∧ matches
 		if ok {
 			okK, whyK := loopKeepTable2(f, func(pa engine.Path, n int) (bool, string) {
-				m := val(pa, -1, func(a string) bool { return strings.HasPrefix(a, "call(labels.Selector.Matches)(call(controller/composite.parentController.makeSelector)(") })
+				m := val(pa, -1, func(a string) bool {
+					return strings.HasPrefix(a, "call(labels.Selector.Matches)(call(controller/composite.parentController.makeSelector)(")
+				})
 				e := val(pa, -1, func(a string) bool { return strings.HasPrefix(a, "call(labels.Selector.Empty)(") })
-				serr := val(pa, -1, func(a string) bool { return strings.HasPrefix(a, "(call(controller/composite.parentController.makeSelector)(") && strings.HasSuffix(a, "#1 == nil)") })
+				serr := val(pa, -1, func(a string) bool {
+					return strings.HasPrefix(a, "(call(controller/composite.parentController.makeSelector)(") && strings.HasSuffix(a, "#1 == nil)")
+				})
 				switch {
 				case n > 0 && !(m == 1 && e == -1 && serr == 1):
 					return false, "keeps a parent without (selector valid ∧ non-empty ∧ matches the child's labels)"
@@ -428,7 +459,9 @@ func r14_3(r *Report, p *Program) {
 
 func matchNegPrefix(pa engine.Path, comp bool, obj string) bool {
 	if comp {
-		return val(pa, -1, func(a string) bool { return strings.Contains(a, ".doNotMatchLabels)(") && strings.Contains(a, "GetLabels)("+obj) }) == 1
+		return val(pa, -1, func(a string) bool {
+			return strings.Contains(a, ".doNotMatchLabels)(") && strings.Contains(a, "GetLabels)("+obj)
+		}) == 1
 	}
 	return val(pa, -1, func(a string) bool { return strings.Contains(a, "decoratorSelector.Matches)(p0.parentSelector, "+obj) }) == -1
 }
@@ -509,7 +542,9 @@ func r14_4(r *Report, p *Program) {
 	if f := fn(r, p, rule, pkg+".onRelatedUpdate"); f != nil {
 		dropTable(r, p, rule, f, "drop⇔same-resourceVersion", func(in ssa.Instruction) bool { return isCallTo(in, ".notifyRelatedParents") },
 			func(pa engine.Path) (bool, string) {
-				if pa.Has(true, func(a string) bool { return strings.Count(a, "GetResourceVersion)(") == 2 && strings.Contains(a, " == ") }) {
+				if pa.Has(true, func(a string) bool {
+					return strings.Count(a, "GetResourceVersion)(") == 2 && strings.Contains(a, " == ")
+				}) {
 					return true, ""
 				}
 				return false, "related update dropped although the resourceVersion changed"
@@ -576,7 +611,9 @@ func r14_4(r *Report, p *Program) {
 						}
 					}
 				}
-				if len(from) == 0 || (engine.Query{Fn: f, From: from, Target: func(in ssa.Instruction) bool { return in.Block().Comment == "rangeindex.loop" || in.Block().Comment == "rangeiter.loop" || engine.IsReturn(in) },
+				if len(from) == 0 || (engine.Query{Fn: f, From: from, Target: func(in ssa.Instruction) bool {
+					return in.Block().Comment == "rangeindex.loop" || in.Block().Comment == "rangeiter.loop" || engine.IsReturn(in)
+				},
 					CutInstr: func(in ssa.Instruction) bool { return isCallTo(in, "builtin.append") }}).Find() != nil {
 					ok, why = false, "a matching parent is not added to the result"
 				}
